@@ -77,6 +77,24 @@ class ScriptedRng:
         return getattr(self.inner, name)
 
 
+class patched_rng:
+    """While active, np.random.default_rng(seed) returns wrap(real generator) -- Snowflake.run() re-creates its
+    generator from the seed, so the harness hooks the factory (harness-side only; /repo is not instrumented)."""
+    def __init__(self, wrap):
+        self.wrap = wrap
+        self.made = []
+    def __enter__(self):
+        self.orig = np.random.default_rng
+        def factory(*a, **k):
+            g = self.wrap(self.orig(*a, **k))
+            self.made.append(g)
+            return g
+        np.random.default_rng = factory
+        return self
+    def __exit__(self, *a):
+        np.random.default_rng = self.orig
+
+
 def build(cfg, storeStates="all", **kw):
     sf = impl.snowflake_mod()
     oc = impl.opcond_mod()
@@ -91,8 +109,12 @@ def build(cfg, storeStates="all", **kw):
 def run(cfg, storeStates="all", script=None):
     with impl.quiet():
         S = build(cfg, storeStates)
-        S._rng = ScriptedRng(S._rng, script) if script else CountingRng(S._rng)
-        S.run()
+        wrap = (lambda g: ScriptedRng(g, script)) if script else CountingRng
+        S._rng = wrap(S._rng)
+        with patched_rng(wrap) as pr:
+            S.run()
+        if pr.made:
+            S._rng = pr.made[-1]
     N = S.N_vials_total
     hs = np.broadcast_to(np.asarray(S.H_shelf, dtype=float), (N,)).copy()
     return dict(S=S, XT=np.array(S.X_T), XS=np.array(S.X_sigma), stats={k: np.array(v) for k, v in S.stats.items()},
